@@ -10,6 +10,7 @@ CONSTANTS
   MaxSendErrs = 1
   MaxResults = 1
   KindSet = {"ok", "nr"}
+  BuCap = 1
   FixF22 = TRUE
   GenHist = FALSE
 INIT Init
